@@ -147,6 +147,19 @@ def _tx_events(args):
                        ["cds_location", lo(lambda: B.cds_location)],
                        ["cds_chunk_relative_location", lo(lambda: B.cds_chunk_relative_location)],
                        ["chunk_relative_cds_blocks", bl(lambda: B.chunk_relative_cds_blocks)]]
+                # the chunk-relative DICTIONARY form (what is handed to the io models): the same clipped block structure
+                def dform(keys):
+                    def fn():
+                        d = B.to_dict(chromosome_relative_coordinates=False)
+                        if d[keys[0]] is None:
+                            raise ValueError("no " + keys[0])
+                        return d
+                    return E.outcome(fn, lambda d: ([[[int(a_), int(b_)] for a_, b_ in zip(d[keys[0]], d[keys[1]])],
+                                                      B.chunk_relative_strand.to_symbol()],))
+
+                acc.append(["dict_chunk_exons", dform(("exon_starts", "exon_ends"))])
+                if cds:
+                    acc.append(["dict_chunk_cds", dform(("cds_starts", "cds_ends"))])
                 ev.append(["cracc", [blocks, st], [cds, st] if cds else [[], "e"], ws, we, minus_chunk, acc])
                 # the generic point maps of a FeatureInterval on the same chunk
                 try:
